@@ -114,6 +114,7 @@ theorem decodeT_rows_wf (cfg : Cfg) (hI : cfg.InflateOk) (hC : cfg.CrcOk) (t : T
     (len' t' : Nat) (rest' : Bytes) (hlen' : len' < 2 ^ 32) (ht' : t' < 2 ^ 32) (hne' : t' ≠ IDAT)
     (hod0 : depthOk (t.outColorDepth h.info f).2 = true)
     (hsize : outLineSize t h.info f h.width * h.height < 2 ^ 64)
+    (hsize2 : outLineSize t i f h.width * h.height < 2 ^ 64)
     (hlimit : outLineSize t i f h.width ≤ dA.limit) :
     (run cfg t (R.init opts limit f
       (signature ++ (chunk cfg IHDR h.body ++ (anc ++ (idats cfg (z :: zs) ++ (be32Bytes len' ++ typeBytes t' ++ rest')))))
@@ -130,6 +131,9 @@ theorem decodeT_rows_wf (cfg : Cfg) (hI : cfg.InflateOk) (hC : cfg.CrcOk) (t : T
     simp [Sub.dims, hfj, hc.1, hc.2.1]
   obtain ⟨r, i, N, dEnd, hri, hR, hcore, hfctl, _, hrd, hpb, _, _, hiA', _⟩ :=
     readInfoT_wf cfg hI hC t f opts limit h hv anc dA none hanc hidle z zs raw hz hzs hinf len' t' rest' hlen' ht' hne' hod0 hsize
+      (fun i' hi' => by
+        have : i' = j := by rw [hiA] at hi'; cases hi'; rfl
+        subst this; exact ⟨(legal_pos hcv.outLegal).2.2, hsize2⟩)
       (fun i' hi' => by
         have : i' = j := by rw [hiA] at hi'; cases hi'; rfl
         subst this; rw [hdimsj]; exact hlimit)
